@@ -158,6 +158,9 @@ class Link(ModelElement):
         :param kwargs:
         :return:
         """
+        if kwargs.get('name') is not None:
+            # as set_property('name') / rename(): the new name must be free in the element's scope
+            self._check_name_unique(kwargs['name'])
         link_sliver = NetworkLinkSliver()
         link_sliver.set_properties(**kwargs)
         # write into the graph
